@@ -1045,6 +1045,17 @@ func TestVerifC24(t *testing.T) {
 		vfCase(fmt.Sprintf("(WNilFrom \"query.%s\"%%string %s %s)", qn.name, obs, invalid), "nilfrom:query."+qn.name, true, []string{"qnode:" + qn.name, "nil-message"}, map[string]any{"type": "query." + qn.name, "message": "nil", "obs": obs[:5]})
 	}
 
+	// RawConfigFromProto is not a struct conversion; a nil payload cannot come from the wire (a set oneof
+	// carries a message), so its behaviour on nil is only compared, not required to be panic-free
+	{
+		res, panicked, _ := c24Call(func() any { return query.RawConfigFromProto(nil) })
+		obs := "(Panic 0)"
+		if !panicked {
+			obs = "(Ok " + c24Enc(reflect.ValueOf(res)) + ")"
+		}
+		vfCase(fmt.Sprintf("(WNilQPayload \"Q_RawConfig\"%%string %s %s)", obs, invalid), "nilpayload:RawConfig", true, []string{"qnode:RawConfig", "nil-message"}, map[string]any{"type": "query.RawConfig", "message": "nil", "obs": obs[:5]})
+	}
+
 	// ---- 2a. query trees, Go side
 	nQ := n * 2 / 10
 	for i := 0; i < nQ; i++ {
@@ -1177,6 +1188,9 @@ func TestVerifC24(t *testing.T) {
 		var what string
 		var msg string
 		var hresp any // the response message of Search / List
+		var reqQ *webserverv1.Q
+		var reqSO *webserverv1.SearchOptions
+		var reqLO *webserverv1.ListOptions
 		rec.called, rec.failed, rec.enc = false, false, ""
 		// the first rounds are directed (every run): each handler with every subset of {query, options}
 		// set, and StreamSearch with the inner request unset
@@ -1203,6 +1217,7 @@ func TestVerifC24(t *testing.T) {
 			}
 			reqEnc = c24Enc(reflect.ValueOf(in))
 			msg = fmt.Sprint(in)
+			reqQ, reqSO = in.GetQuery(), in.GetOpts()
 			var herr error
 			_, p, w := c24Call(func() any { hresp, herr = srv.Search(ctx, in); return nil })
 			cls, what = c24ErrClass(herr, p), w
@@ -1221,6 +1236,7 @@ func TestVerifC24(t *testing.T) {
 			}
 			reqEnc = c24Enc(reflect.ValueOf(in))
 			msg = fmt.Sprint(in)
+			reqQ, reqSO = in.GetRequest().GetQuery(), in.GetRequest().GetOpts()
 			var herr error
 			_, p, w := c24Call(func() any { herr = srv.StreamSearch(in, &c24Stream{ctx: ctx}); return nil })
 			cls, what = c24ErrClass(herr, p), w
@@ -1234,6 +1250,7 @@ func TestVerifC24(t *testing.T) {
 			}
 			reqEnc = c24Enc(reflect.ValueOf(in))
 			msg = fmt.Sprint(in)
+			reqQ, reqLO = in.GetQuery(), in.GetOpts()
 			var herr error
 			_, p, w := c24Call(func() any { hresp, herr = srv.List(ctx, in); return nil })
 			cls, what = c24ErrClass(herr, p), w
@@ -1248,6 +1265,7 @@ func TestVerifC24(t *testing.T) {
 			}
 			reqEnc = c24Enc(reflect.ValueOf(in))
 			msg = fmt.Sprint(in)
+			reqQ, reqSO = in.GetQuery(), in.GetOpts()
 			var herr error
 			_, p, w := c24Call(func() any { hresp, herr = srv.Search(ctx, in); return nil })
 			cls, what = c24ErrClass(herr, p), w
@@ -1262,6 +1280,7 @@ func TestVerifC24(t *testing.T) {
 			c24wire(req, in)
 			reqEnc = c24Enc(reflect.ValueOf(in))
 			msg = fmt.Sprint(in)
+			reqQ, reqSO = in.GetRequest().GetQuery(), in.GetRequest().GetOpts()
 			var herr error
 			_, p, w := c24Call(func() any { herr = srv.StreamSearch(in, &c24Stream{ctx: ctx}); return nil })
 			cls, what = c24ErrClass(herr, p), w
@@ -1276,6 +1295,7 @@ func TestVerifC24(t *testing.T) {
 			c24wire(req, in)
 			reqEnc = c24Enc(reflect.ValueOf(in))
 			msg = fmt.Sprint(in)
+			reqQ, reqLO = in.GetQuery(), in.GetOpts()
 			var herr error
 			_, p, w := c24Call(func() any { hresp, herr = srv.List(ctx, in); return nil })
 			cls, what = c24ErrClass(herr, p), w
@@ -1298,6 +1318,25 @@ func TestVerifC24(t *testing.T) {
 		}
 		if rec.called {
 			// decoding: the query and the options the handler handed to the searcher
+			// oracle (reference decoding with the real conversion functions): the searcher gets the query and
+			// the option set of the request - "every query and search option set survives", at the service level
+			wantQ, wantO := "", ""
+			if q0, err := query.QFromProto(reqQ); err == nil {
+				wantQ = c24EncQ(q0)
+			}
+			if h == 2 {
+				wantO = c24Enc(reflect.ValueOf(zoekt.ListOptionsFromProto(reqLO)))
+			} else if so := zoekt.SearchOptionsFromProto(reqSO); so != nil {
+				wantO = c24Enc(reflect.ValueOf(so))
+			} else {
+				wantO = c24Enc(reflect.ValueOf(&zoekt.SearchOptions{}))
+			}
+			if wantQ != rec.argQ {
+				vfOracleFail("handler-args:"+hn+":query", hn+" hands the searcher a query that is not the request's query", map[string]any{"handler": hn, "request": msg, "want": wantQ, "got": rec.argQ})
+			}
+			if wantO != rec.argO {
+				vfOracleFail("handler-args:"+hn+":options", hn+" hands the searcher options that are not the request's options (defaults when unset)", map[string]any{"handler": hn, "request": msg, "want": wantO, "got": rec.argO})
+			}
 			vfCase(fmt.Sprintf("(WHandlerA %d %s %s %s %s)", h, reqEnc, rec.argQ, rec.argO, invalid), "ha:"+hn+reqEnc, true, append(append([]string(nil), classes...), "searcher-args"), map[string]any{"handler": hn, "request": msg})
 		}
 		if h != 1 && cls == 0 && rec.called && !rec.failed && hresp != nil {
